@@ -3,15 +3,15 @@
 # Evidence / replays of these runs go to /var/tmp/gv-verif-out (never into /verif/evidence).
 PATCH="$(realpath "$1")"; shift
 SCRATCH="/var/tmp/gv-mut-$$"
-rm -rf "$SCRATCH"; mkdir -p "$SCRATCH" /var/tmp/gv-verif-out
+rm -rf "$SCRATCH"; mkdir -p "$SCRATCH" /var/tmp/gv-verif-out/$$
 (cd /repo && git ls-files -z | xargs -0 cp --parents -t "$SCRATCH") || exit 2
 (cd "$SCRATCH" && patch -p1 -s < "$PATCH") || { echo "patch failed"; rm -rf "$SCRATCH"; exit 2; }
 cd /verif
 rc=0
 for c in "$@"; do
-  VERIF_REPO="$SCRATCH" VERIF_OUT=/var/tmp/gv-verif-out ./check "$c" --tier "${TIER:-quick}" > "/var/tmp/gv-verif-out/$c.log" 2>&1
+  VERIF_REPO="$SCRATCH" VERIF_OUT=/var/tmp/gv-verif-out/$$ ./check "$c" --tier "${TIER:-quick}" > "/var/tmp/gv-verif-out/$c.$$.log" 2>&1
   r=$?
-  echo "$c exit=$r $(grep -c '^VIOLATION' /var/tmp/gv-verif-out/$c.log) violations; $(grep -m1 -A1 '^VIOLATION' /var/tmp/gv-verif-out/$c.log | tail -1 | cut -c1-220)"
+  echo "$c exit=$r $(grep -c '^VIOLATION' /var/tmp/gv-verif-out/$c.$$.log) violations; $(grep -m1 -A1 '^VIOLATION' /var/tmp/gv-verif-out/$c.$$.log | tail -1 | cut -c1-220)"
   [ $r -ne 0 ] && rc=1
 done
 rm -rf "$SCRATCH"
